@@ -139,7 +139,27 @@ func session(i int) (*packet.Session, *sess.RecConn) {
 		}
 	}()
 	sessions[i], conns[i] = s, conn
+	settleGoroutines()
 	return s, conn
+}
+
+// settleGoroutines waits until the number of goroutines has stopped changing.  sess.New stops the timers of the new
+// session (minute loop, NIC monitor): their goroutines END a moment later.  Apply decides that "the senders the
+// handler started are gone" by comparing runtime.NumGoroutine() with its value before the call, so a timer goroutine
+// that ends during the first DISCOVER on a new session hides the sender of the forged DECLINE: the wait ends at
+// once, the DECLINE is written during a later step and the side-frame oracle reports it against that step (bO: seen
+// once under load, on the first history of a replay; the same history passes when replayed again).
+func settleGoroutines() {
+	last, same := runtime.NumGoroutine(), 0
+	for deadline := time.Now().Add(3 * time.Second); same < 40 && time.Now().Before(deadline); {
+		runtime.Gosched()
+		time.Sleep(500 * time.Microsecond)
+		if n := runtime.NumGoroutine(); n == last {
+			same++
+		} else {
+			last, same = n, 0
+		}
+	}
 }
 
 type World struct {
@@ -185,6 +205,11 @@ func NewWorldCaptured(i, mode int, filename string, captured [][]byte, reset boo
 				s.VerifDeleteHost(a.IP)
 			}
 		}
+		// the two entries a new session starts with: a history may have deleted them or given their address to a
+		// client (host / nohost steps; in h29same the host address is inside the pool's prefix) - a world that started
+		// from what the previous history left explores other states than the same history replayed in a new process
+		s.VerifSetHost(c.Host, sess.HostMAC)
+		s.VerifSetHost(c.Router, sess.RouterMAC)
 	}
 	for _, m := range captured {
 		s.Capture(net.HardwareAddr(m))
@@ -666,9 +691,21 @@ func (w *World) Apply(o *Op) *Step {
 			w.H.MinuteTicker(vtime(o.Hours))
 		case "age":
 			// time passes for this client's lease: in memory and, consistently, in the record the last ACK saved
-			w.H.VerifAge(o.CID, time.Duration(o.Hours)*time.Hour)
+			// The canonical clock counts whole hours: every time.Now() of the run is hour 1000, and so is tick:1000
+			// (the start of the process).  A lease whose expiry falls INTO that hour (acknowledged during this run
+			// and aged by exactly its duration: 1 h + 3 h of a 4 h lease) is really before every later time.Now() -
+			// expired for DISCOVER / REQUEST, which compare with Before(now) - and after tick:1000, and no single
+			// canonical value says both: the model, given expiry = now, keeps the lease.  Ageing is a device of the
+			// harness, so such a step ages one further hour and the lease is expired on both clocks.
+			d := time.Duration(o.Hours) * time.Hour
+			for _, l := range w.H.VerifDump().Leases {
+				if bytes.Equal(l.CID, o.CID) && !l.Expiry.IsZero() && canon(l.Expiry.Add(-d)) == nowH*hour {
+					d += time.Hour
+				}
+			}
+			w.H.VerifAge(o.CID, d)
 			if w.File != "" {
-				w.H.VerifAgeFile(o.CID, time.Duration(o.Hours)*time.Hour)
+				w.H.VerifAgeFile(o.CID, d)
 			}
 			st.Skipped = true // not a model op: it only moves the implementation to another pre-state
 		case "capture":
@@ -1991,6 +2028,9 @@ func scenarios(c *core.Ctx) {
 	for si, sk := range skeletons {
 		abs := parseSkeleton(sk)
 		for cfgIdx := 0; cfgIdx < NumBase; cfgIdx++ {
+			if !c.NextMine() { // sharded run: one unit per (skeleton, configuration)
+				continue
+			}
 			cfg := &Cfgs[cfgIdx]
 			nf := u32(cfg.Netfilter.Masked().Addr())
 			home := u32(cfg.Home.Masked().Addr())
@@ -2027,6 +2067,9 @@ func scenarios(c *core.Ctx) {
 		if target != 0 && target < NumBase {
 			continue
 		}
+		if !c.NextMine() {
+			continue
+		}
 		abs := parseSkeleton(restartSkeleton)
 		for k := range abs {
 			if abs[k].kind == "restart" {
@@ -2049,23 +2092,39 @@ func Gen(c *core.Ctx) {
 		}
 	}
 	c.Res.Rule = "non-trivial = history with at least one (pre, op, post, replies) step not checked before in this run"
-	for _, l := range c.CorpusLines() {
+	// Sharded run (checks.json "shards", core.Ctx.Mine): the histories are independent of one another (each starts
+	// from a fresh handler), so the shards split them - corpus lines and random histories round robin, the scenarios
+	// per (skeleton, configuration), the exhaustive search per handler mode (the three modes cost the same); every
+	// shard draws the same random stream and skips the evaluation of what is not its own.
+	for i, l := range c.CorpusLines() {
+		if !c.Mine(i) {
+			continue
+		}
 		if cs := Eval(c, l); cs != nil {
 			c.Add(*cs)
 		}
 	}
 	depth := c.Scale(4, 6)
-	genNew(c)
+	if c.First() {
+		genNew(c)
+	}
 	scenarios(c)
 	if c.Prop == "C12" {
 		for k := 0; k < c.Scale(6, 60); k++ {
-			if cs := Eval(c, fmt.Sprintf("dhcp.conc %d %d %d %d", k%NumBase, 1+(k/NumBase)%3, c.Rnd.Intn(1<<20), c.Scale(600, 3000))); cs != nil {
+			line := fmt.Sprintf("dhcp.conc %d %d %d %d", k%NumBase, 1+(k/NumBase)%3, c.Rnd.Intn(1<<20), c.Scale(600, 3000))
+			if !c.Mine(k) {
+				continue
+			}
+			if cs := Eval(c, line); cs != nil {
 				c.Add(*cs)
 			}
 		}
 	}
 	for cfgIdx := 0; cfgIdx < NumBase; cfgIdx++ {
 		for mode := 1; mode <= 3; mode++ {
+			if !c.Mine(mode - 1) {
+				continue
+			}
 			d := depth
 			if cfgIdx != 0 {
 				d--
@@ -2080,6 +2139,9 @@ func Gen(c *core.Ctx) {
 		cfgIdx := k % NumBase
 		mode := 1 + (k/NumBase)%3
 		ops := randomHistory(c, cfgIdx, 10+c.Rnd.Intn(51))
+		if !c.Mine(k) {
+			continue
+		}
 		run := RunHistory(cfgIdx, mode, ops)
 		c.Add(*mkCase(c, cfgIdx, mode, ops, run, true, "random"))
 	}
